@@ -27,6 +27,10 @@ TERM_SIGNALS = [1, 2, 3, 4, 5, 6, 7, 8, 9, 10, 11, 12, 13, 14, 15, 24, 25, 26, 2
 PTY_OPS = ['isalive', 'wait', 'kill', 'terminate', 'terminate_force', 'close', 'close_noforce', 'sendeof',
            'expect_eof', 'send', 'rnb', 'with_exc', 'del', 'sendline', 'read_all', 'aexpect_eof']
 FD_OPS = ['isalive', 'close', 'send', 'expect_eof', 'rnb', 'with_exc', 'del']
+# rarely combined with the main path, but they all go to the descriptor (terminal attributes, window size, control keys)
+PTY_AUX = ['isatty', 'getecho', 'setecho', 'getwinsize', 'setwinsize', 'sendcontrol', 'sendintr', 'waitnoecho', 'readline',
+           'fileno', 'flush', 'eof']
+FD_AUX = ['isatty', 'sendline', 'readline', 'fileno', 'flush']
 
 
 class Decoy(OpenFile):
@@ -46,8 +50,11 @@ class Decoy(OpenFile):
 def gen_ops(rng, tr, n):
     ops = []
     al = PTY_OPS if tr == 'pty' else FD_OPS
+    aux = PTY_AUX if tr == 'pty' else FD_AUX
     for _ in range(n):
         o = rng.choice(al)
+        if tr != 'popen' and rng.random() < 0.15:
+            o = rng.choice(aux)
         op = {'op': o}
         if o == 'kill':
             op['sig'] = rng.choice([1, 2, 15, 9, 18, 19, 0, 10])
@@ -110,6 +117,8 @@ def generate(rng):
     if tr == 'pty' and scn['disp'] == 'mid_exit':
         scn['exit_at'] = [rng.randrange(nops), rng.randint(1, 8)]
     scn['timeout'] = 0.2
+    if scn.get('use_poll') and scn.get('transport') in ('pty', 'fd') and rng.random() < 0.3:
+        scn['many_fds'] = True      # > 1024 descriptors open: select() would raise, every wait must go through poll
     return scn
 
 
@@ -355,6 +364,20 @@ def run(scn, prop=None):
                     res['ret'] = child.sendline(b'x' if child.encoding is None else u'x')
                 elif o == 'rnb':
                     res['ret'] = child.read_nonblocking(10, 0.01)
+                elif o in ('isatty', 'getecho', 'getwinsize', 'fileno', 'flush', 'eof'):
+                    res['ret'] = getattr(child, o)()
+                elif o == 'setecho':
+                    res['ret'] = child.setecho(False)
+                elif o == 'setwinsize':
+                    res['ret'] = child.setwinsize(30, 100)
+                elif o == 'sendcontrol':
+                    res['ret'] = child.sendcontrol('g')
+                elif o == 'sendintr':
+                    res['ret'] = child.sendintr()
+                elif o == 'waitnoecho':
+                    res['ret'] = child.waitnoecho(timeout=0.01)
+                elif o == 'readline':
+                    res['ret'] = child.readline()
                 elif o == 'with_exc':
                     try:
                         with child:
